@@ -115,7 +115,7 @@ func init() {
 		}
 		// (b) true-scale recorded executions validated by TLC in 64-bit digit arithmetic
 		evs := filepath.Join(dir, "events.ndjson")
-		n := c.pick(4000, 60000)
+		n := c.pick(4000, 200000)
 		if o, err := c.S.HRun(20*time.Minute, "timepb-record", "--n", fmt.Sprint(n), "--seed", fmt.Sprint(c.Seed), "--out", evs); err != nil {
 			c.R.InternalErr("timepb-record: %v %s", err, trunc(o, 1500))
 			return
